@@ -193,6 +193,8 @@ def execute(item):
             evs.append({"ev": "Restart"})
         res = (run_segment_fork if forked else run_segment)(seg, base, fake)  # one project directory for the whole history
         evs.append({"ev": "Import", "n": len(res["import_draws"])})
+        # calls of token_bytes in this interpreter (a fake generator of the end-to-end canary starts anew in every interpreter)
+        info["ndraws"] = max(info.get("ndraws", 0), len(res["import_draws"]) + sum(len(rec.get("draws", [])) for rec in res["steps"]))
         drawn, expl = {}, {}  # value hex (and the documented derived forms of a draw) -> phase of its first draw in this interpreter
 
         def note(ph, n, hx):
@@ -427,9 +429,13 @@ def canary_e2e(v, healthy):
     """The whole chain (executor -> canonicalisation -> TLC) must notice a generator that repeats itself: the real OTFAD / BEE
     constructors are run in interpreters whose token_bytes is replaced by a constant / by a generator with period 64.
     The canary is conclusive only if SPSDK draws through token_bytes as on the pinned tree (one call per value): on a tree whose
-    histories were rejected anyway it is recorded, not enforced."""
-    runs = [("e2e-const", homogeneous(("OTFAD", "ctor", []), 2), "const"), ("e2e-cycle", homogeneous(("BEE", "ctor", []), 40), "cycle:64"),
-            ("e2e-cycle-short", homogeneous(("BEE", "ctor", []), 10), "cycle:64"),
+    histories were rejected anyway it is recorded, not enforced.
+    Its known-good member (10 BEE headers, 40 draws of the period-64 generator: all values distinct) is a trace of the REAL code: if the
+    spec rejects it although the generator never repeated itself, SPSDK itself put one value into two artefacts - that is decided and
+    reported like every other history (a violation of this run), never a machinery failure."""
+    period = 64
+    runs = [("e2e-const", homogeneous(("OTFAD", "ctor", []), 2), "const"), ("e2e-cycle", homogeneous(("BEE", "ctor", []), 40), f"cycle:{period}"),
+            ("e2e-cycle-short", homogeneous(("BEE", "ctor", []), 10), f"cycle:{period}"),
             ("e2e-reconf-const", reconfigured("MBI", [["key"], ["key"]]), "const")]
     out = [execute(x) for x in runs]
     for t, i in out:
@@ -439,15 +445,25 @@ def canary_e2e(v, healthy):
             v.extra["canary_e2e"] = "not executable on this tree"
             return
     rej, _ = tv_checked([t for t, _i in out])
-    ok = "e2e-const" in rej and "e2e-cycle" in rej and "e2e-cycle-short" not in rej and rej.get("e2e-reconf-const", (0,))[0] == 3
-    if not ok and healthy:
-        raise Machinery(f"end-to-end canary failed: rejected {rej} (constant and period-64 generators must be rejected, 10 BEE headers "
-                        f"with a period-64 generator draw 40 distinct values and must be accepted, a real MBI object configured twice with a constant "
-                        f"generator must be rejected at the Reconfigure event)")
+    short_rejected = "e2e-cycle-short" in rej
+    if short_rejected and healthy:
+        (hid, hist, fake), (t, info) = next((r, o) for r, o in zip(runs, out) if r[0] == "e2e-cycle-short")
+        if info.get("ndraws", 0) > period:
+            raise Machinery(f"end-to-end canary: {n_constructs(hist)} BEE headers draw {info['ndraws']} values on this tree, more than the period {period} of the "
+                            f"fake generator - the known-good history of the canary has to be shortened (rejected: {rej})")
+        # every value the generator handed out was distinct and still two artefacts carry the same one: decided by the normal path
+        info["hist"], info["fake"], info["why"] = hist, fake, "canary-e2e-known-good"
+        decide(v, [t], {hid: info}, "known-good history of the end-to-end canary (rejected by the spec)")
+    ok = "e2e-const" in rej and "e2e-cycle" in rej and not short_rejected and rej.get("e2e-reconf-const", (0,))[0] == 3
+    if not ok and healthy and not short_rejected:
+        raise Machinery(f"end-to-end canary failed: rejected {rej} (constant and period-64 generators must be rejected, a real MBI object configured "
+                        f"twice with a constant generator must be rejected at the Reconfigure event)")
     v.extra["canary_e2e"] = ((f"real OTFAD key blobs with a constant token_bytes rejected at event {rej['e2e-const'][0] + 1}; 40 real BEE headers with a "
                               f"period-64 token_bytes rejected at event {rej['e2e-cycle'][0] + 1} of {rej['e2e-cycle'][1]}; 10 headers (40 draws < 64) accepted; "
                               f"a real MBI object configured twice with a constant token_bytes rejected at its Reconfigure event")
-                             if ok else f"inconclusive on this tree (rejected: {sorted(rej)}); not enforced because histories were rejected")
+                             if ok else
+                             (f"known-good history (10 real BEE headers, {out[2][1].get('ndraws')} distinct draws) rejected by the spec: reported as a violation of this run"
+                              if short_rejected and healthy else f"inconclusive on this tree (rejected: {sorted(rej)}); not enforced because histories were rejected"))
 
 
 # ------------------------------------------------------------------------------------------------ histories
